@@ -1489,7 +1489,7 @@ pub fn dec_add_one(s: &str) -> String {
 // C09: version matrix
 // ---------------------------------------------------------------------------------------------
 pub const OPERATORS: &[(&str, &str)] = &[("none", ""), ("caret", "^"), ("tilde", "~"), ("equals", "="), ("greater-equal", ">="), ("greater", ">")];
-pub const PLACEMENTS: &[&str] = &["none", "before", "after", "both"];
+pub const PLACEMENTS: &[&str] = &["none", "before", "after", "both", "after-definition", "at-end"];
 
 pub fn c09_bodies() -> Vec<(&'static str, String)> {
     let s31 = "a".repeat(31);
@@ -1523,13 +1523,22 @@ pub fn c09_file(version: Option<(u32, u32, u32)>, op: &str, placement: &str, bod
     if placement == "before" || placement == "both" {
         src.push_str("pragma experimental ABIEncoderV2;\n");
     }
+    // the `pragma solidity` directive itself need not be the first item of the file
+    if placement == "after-definition" {
+        src.push_str("interface IPre {\n    function p() external;\n}\nstruct SPre { uint a; }\n");
+    }
+    if placement == "at-end" {
+        src.push_str(body);
+    }
     if let Some((a, b, c)) = version {
         src.push_str(&format!("pragma solidity {}{}.{}.{};\n", op, a, b, c));
     }
     if placement == "after" || placement == "both" {
         src.push_str("pragma abicoder v2;\n");
     }
-    src.push_str(body);
+    if placement != "at-end" {
+        src.push_str(body);
+    }
     src
 }
 
